@@ -18,7 +18,7 @@ type propC03 struct{}
 func init() {
 	Register(propC03{})
 	meta["C03"] = propMeta{
-		Rule: "A case is one world: generated program + configuration, compiled under 4 of the 16 optimisation subsets (options or directive route, event mode random), 1-3 bindings, every-point single-fault enumeration at the seam (60% of worlds) and random multi-fault plans. For each (subset, plan) the engine's ordered seam log is compared with the log of the L2R reference run on the re-read Dump tree. evaluations = calls into the library. non-trivial = distinct worlds whose program has and/or/if and whose fault-free run makes at least two seam calls.",
+		Rule: "A case is one world: generated program + configuration, compiled under 4 of the 16 optimisation subsets (options or directive route, event mode random), 1-3 bindings, every-point single-fault enumeration at the seam (60% of worlds) and random multi-fault plans. Three quarters of the worlds evaluate with Eval, one quarter with TryEval and every variable available (which evaluates the same program). For each (subset, plan) the engine's ordered seam log is compared with the log of the L2R reference run on the re-read Dump tree. evaluations = calls into the library. non-trivial = distinct worlds whose program has and/or/if and whose fault-free run makes at least two seam calls.",
 		Assumptions: []string{
 			"Dump is trusted as the description of the optimised program (the statement defines it so); an unreadable Dump is reported, not ignored",
 			"the one permitted relaxation (second leaf of a two-leaf and/or fetched under FastEvaluation) is matched by trying both alternatives at each such point; with FastEvaluation off the match is exact",
@@ -49,7 +49,7 @@ func (propC03) Gen(r *Rng, tier string) *World {
 	w.Cfg.DirStyle = r.Intn(6)
 	w.Cfg.ViaAPI = r.P(0.4)
 	w.Cfg.Event = []string{"", "", "", "report", "debug", "both"}[r.Intn(6)]
-	w.API = "eval"
+	w.API = []string{"eval", "eval", "eval", "tryeval"}[r.Intn(4)] // TryEval with every variable available evaluates too
 	first := r.Intn(16)
 	nm := 4
 	if tier == "thorough" {
@@ -180,6 +180,11 @@ func (propC03) Run(w *World, st *Stats) *Violation {
 			st.Probe("fast_evaluation_on")
 		}
 		one := func(p *Plan) (*Violation, int) {
+			if w.API == "tryeval" && p.Kind != "tryeval" {
+				q := p.Clone()
+				q.Kind = "tryeval"
+				p = &q
+			}
 			out := c.Run(ops, p, "eval")
 			st.Evals++
 			st.Steps += int64(out.Env.N)
